@@ -4,6 +4,9 @@ manifest stays valid while checks are added)."""
 import json, os
 ROOT = os.path.dirname(os.path.abspath(__file__))
 CHECKS = {
+ "C08": dict(level="exploration", technique="stream monitor: independent decoder + reference partition per transfer/block, RFC-only reassembly with independent inflate, A/B flag trace automaton; removal at every packet index",
+     text="Sender-only runs on a virtual clock (systematic grid over 5 FEC x E x B x parity x interleave 1..5 x length lattice, random multi-object sessions with cenc/sources/transfer counts, removal at every packet index with carousel and immediate-stop variants): the emitted stream is cut into transfers with the public Start/StopTransfer events and each transfer is judged block by block against the u128 reference partition and a flag automaton. Held on the runs executed.",
+     note="trusted: vh::wire decoder, reference partition, harness flate2; known finding KF-C08-raptor-semi-equal-symbols", ref="DESIGN.md §5 C08"),
  "C01": dict(level="exploration", technique="end-to-end reference-model monitor: monitoring object writer (typestate + byte/metadata equality) over boundary-lattice sessions, step-budget hang detector, overflow/debug-assert instrumentation",
      text="Tens of thousands of seeded sessions (systematic grid over 5 FEC schemes x E x B x parity x length lattice, cenc grid, random multi-object lattice, receive-once off, directed maximum-length cases, filesystem writer) are run sender -> stream -> receiver in process; an oracle at the writer boundary demands exactly the expected complete copies, byte equality and metadata equality, no failed writer and refusal of objects above the scheme maximum. Held on the sessions run.",
      note="trusted: harness MD5/flate2/url crates, independent wire decoder; clean order-preserving channel; known finding KF-C01-obt-retransfer-duplicates", ref="DESIGN.md §5 C01"),
